@@ -57,6 +57,10 @@ SPICY_COMMENTS = [
     "semicolon; brace } { bracket ] quote ' end",
     "ends with two backslashes \\\\",
     "\\",
+    # characters that str.splitlines() / some editors treat as line breaks but the schema language does not (only LF ends a line)
+    "page break \x0c here",
+    "vertical \x0b tab and separators \x1c \x1d \x1e",
+    "next line \x85 and line \u2028 paragraph \u2029 separators",
 ]
 
 
